@@ -61,7 +61,7 @@ class Check(FormulaCheck):
     RULE = ('case = one formula over a seeded string (length 0-60 over ASCII letters, digits, punctuation, spaces, control characters, accented and CJK letters incl. three beyond U+FFFF) '
             'with counts 0..len+5 and negatives, (old,new,k) with non-self-overlapping old, item lists with blanks (flat and nested). '
             'non-trivial = result compared with the model; distinct = distinct (function/identity, arguments).')
-    ASSUMPTIONS = ('characters whose case mapping changes length are outside the alphabet; counts are integers, except that negative fractions are negative counts too',
+    ASSUMPTIONS = ('letters whose case mapping changes length or yields marks are judged for idempotence and case-only change on the whole text (not character by character); counts are integers, except that negative fractions are negative counts too',
                    'TEXTJOIN items are text or blank, CONCATENATE items also whole numbers (spelled by their decimal digits); empty text is text and is not used together with ignore_empty=TRUE',
                    'PROPER upper-cases exactly after a non-letter is asserted on ASCII-only strings; CLEAN need not remove U+007F')
 
@@ -101,6 +101,10 @@ class Check(FormulaCheck):
             r = self.ev('RIGHT(v_s,v_n)', v_s=s, v_n=n)
             m = self.ev('MID(v_s,1,v_n)', v_s=s, v_n=n)
             rec.nt(('slice', s, n))
+            if isinstance(n, int) and n >= 0:
+                # a count is a count whether it is held as an int or as a float (4/2 characters are two characters)
+                lf, rf, mf = self.ev('LEFT(v_s,v_n)', v_s=s, v_n=float(n)), self.ev('RIGHT(v_s,v_n)', v_s=s, v_n=float(n)), self.ev('MID(v_s,v_a,v_n)', v_s=s, v_a=1.0, v_n=float(n))
+                self.expect('C15/LEFT-RIGHT-MID:count-held-as-float', (lf, rf, mf) == (l, r, m), s=s, n=float(n), got=(lf, rf, mf), with_int_count=(l, r, m))
             if n < 0:
                 self.expect('C15/negative-count-not-#VALUE!', l == r == m == 'ERR:#VALUE!', s=s, n=n, left=l, right=r, mid=m)
                 continue
